@@ -27,6 +27,7 @@ import (
 	"encoding/hex"
 	"encoding/json"
 	"fmt"
+	"math"
 	"math/rand"
 	"os"
 	"os/exec"
@@ -157,6 +158,8 @@ type gen struct {
 	keys map[uint32]refenc.Key
 	n    int
 	next uint32
+	tame bool // plain coordinates only
+	nloc int
 }
 
 func newGen(name string, seed int64) *gen {
@@ -191,8 +194,54 @@ func (g *gen) newAuth(capacity uint64, signer refenc.Key) refenc.Auth {
 	g.next += 1 + uint32(g.rng.Intn(40))
 	k := refenc.GenKey(g.rng)
 	g.keys[id] = k
-	return refenc.Auth{ID: id, Pub: k.Pub, Lat: float64(g.rng.Intn(120) - 60), Long: float64(g.rng.Intn(300) - 150), Capacity: capacity,
+	lat, long := g.location()
+	return refenc.Auth{ID: id, Pub: k.Pub, Lat: lat, Long: long, Capacity: capacity,
 		Debt: uint64(g.rng.Intn(1000)), Expiration: 100000 + uint32(g.rng.Intn(1000)), Initialization: uint32(g.rng.Intn(100)), Fee: uint64(g.rng.Intn(100000))}.Signed(signer.Priv)
+}
+
+// location draws the coordinates of an authorization. The endpoint takes any
+// float64 JSON can carry (no NaN/Inf), so besides plain points on the globe the
+// histories hold swapped pairs, out-of-range, huge, signed-zero and subnormal
+// values. Workloads that run the impact job ungated (its test-mode fake value
+// is computed from the coordinates) keep plain coordinates.
+func (g *gen) location() (float64, float64) {
+	plainLat, plainLong := float64(g.rng.Intn(120)-60), float64(g.rng.Intn(300)-150)
+	if g.tame {
+		return plainLat, plainLong
+	}
+	sign := func() float64 {
+		if g.rng.Intn(2) == 0 {
+			return -1
+		}
+		return 1
+	}
+	g.nloc++
+	k := g.rng.Intn(12)
+	if g.nloc <= 3 { // the first three devices of every history: swapped pair, latitude out of range, longitude out of range
+		k = g.nloc + 2
+	}
+	switch k {
+	case 0, 1, 2:
+		return plainLat + g.rng.Float64(), plainLong + g.rng.Float64()
+	case 3: // latitude and longitude in the wrong order (e.g. -122.42, 37.77)
+		return sign() * (95 + 80*g.rng.Float64()), sign() * 85 * g.rng.Float64()
+	case 4:
+		return sign() * (90.000001 + 89*g.rng.Float64()), plainLong
+	case 5:
+		return plainLat, sign() * (180.000001 + 179*g.rng.Float64())
+	case 6:
+		return sign() * 1e6, sign() * 1e6
+	case 7:
+		return math.Copysign(0, sign()), math.Copysign(0, sign())
+	case 8:
+		return sign() * 5e-324, sign() * 2.2250738585072009e-308
+	case 9:
+		return sign() * math.MaxFloat64, sign() * math.MaxFloat64
+	case 10:
+		return sign() * 90, sign() * 180
+	default:
+		return sign() * 360 * g.rng.Float64(), sign() * 720 * g.rng.Float64()
+	}
 }
 
 func (g *gen) liveIDs() []uint32 {
@@ -454,6 +503,7 @@ func genSeq(h int, seed int64) *Script {
 // after the rotation, so operations of different workers commute.
 func genConc(seed int64, rounds int) *Script {
 	g := newGen(fmt.Sprintf("conc-%d", seed), seed)
+	g.tame = true // the impact job runs ungated in this workload
 	sc := g.sc
 	capacity := func() uint64 { return uint64(50000 + g.rng.Intn(150000)) }
 	g.seq("start", "start.first", nil, 0)
